@@ -460,6 +460,7 @@ type c14Item struct {
 	When         *c14Pred   `json:"when,omitempty"`
 	WhenAnalytic bool       `json:"when_analytic,omitempty"`
 	Inv          bool       `json:"invariance_only,omitempty"`
+	WrapWhen     bool       `json:"wrapper_with_when,omitempty"`
 	Quote        string     `json:"-"`
 
 	// reference state
@@ -474,6 +475,8 @@ type c14PartState struct {
 	hasLast bool
 	missing bool // some row of this partition lacked one of the item's argument columns
 	ids     []int
+	// lastCalls: the calls' outputs at the partition's last WHEN-true row (wrapper + WHEN)
+	lastCalls []c14Exp
 }
 
 func (it *c14Item) fn() string {
@@ -634,6 +637,30 @@ func (it *c14Item) step(row Row, cap int) (map[string]c14Exp, *c14PartState, str
 		return it.allAny(), ps, key
 	}
 	if it.When != nil && !it.When.holds(row) {
+		if it.WrapWhen {
+			// reading 1: the wrapper's previous output is repeated; reading 2: every call repeats its previous
+			// output and the surrounding expression is evaluated on the current row
+			alts := []any{}
+			r1 := c14Exact(nil)
+			if ps.hasLast {
+				r1 = ps.last[it.Alias]
+			}
+			vals := make([]c14Exp, len(it.Calls))
+			for i := range it.Calls {
+				vals[i] = c14Exact(nil)
+				if i < len(ps.lastCalls) {
+					vals[i] = ps.lastCalls[i]
+				}
+			}
+			r2 := it.wrap(vals, row)
+			x1, ok1 := r1.single()
+			x2, ok2 := r2.single()
+			if !ok1 || !ok2 {
+				return it.allAny(), ps, key
+			}
+			alts = append(alts, x1, x2)
+			return map[string]c14Exp{it.Alias: {Alts: alts}}, ps, key
+		}
 		if ps.hasLast {
 			return ps.last, ps, key
 		}
@@ -654,6 +681,7 @@ func (it *c14Item) step(row Row, cap int) (map[string]c14Exp, *c14PartState, str
 			vals[i] = c.apply(ps.calls[i], row)
 		}
 		out[it.Alias] = it.wrap(vals, row)
+		ps.lastCalls = vals
 	}
 	ps.last, ps.hasLast = out, true
 	return out, ps, key
